@@ -10,6 +10,7 @@
 From stdpp Require Import gmap list.
 From Coq Require Import NArith.
 From BS Require Import Abs.Entities Abs.EntitiesProofs.
+From BS Require Sync.Types Sync.Model Sync.Observe Sync.Proofs.Tracker Sync.Proofs.UuidStable.
 Local Open Scope N_scope.
 
 (* uniqueness: on EVERY run (also inside the known defect classes) no peer holds a uuid twice; the
@@ -82,6 +83,40 @@ Theorem C01_unrestricted_is_false :
   ~ (forall tr s, run init tr = Some s -> quiescent s -> agree s).
 Proof. exact EntitiesProofs.C01_unrestricted_is_false. Qed.
 
+(* "... and an entity's uuid is identical on all peers and never changes", on the FRAME-LEVEL model
+   (Sync/Model.v, the model the per-frame correspondence ties to the code; Sync/Proofs/UuidStable.v: an
+   inductive invariant over frames, systems, commands and application operations, all orders and oracles).
+   For every run in which the application puts SyncMark only on entities of its own and queues no command
+   that names a uuid (uuid_conforming), and any two moments of it: an entity id never stands for two uuids
+   - whatever happened to the id in between (despawned, spawned again, marked again) ... *)
+Theorem C01_an_id_never_stands_for_two_uuids :
+  forall n tr1 tr2, UuidStable.uuid_conforming n (tr1 ++ tr2) ->
+    forall p pr1 pr2, Model.grun (Observe.init_global n) tr1 !! p = Some pr1 ->
+                      Model.grun (Observe.init_global n) (tr1 ++ tr2) !! p = Some pr2 ->
+      UuidStable.uuid_fixed pr1 pr2.
+Proof. exact UuidStable.grun_uuid_fixed. Qed.
+
+(* ... and every entity that is synchronized at the first moment and still there at the second has the
+   same uuid, unless the application itself spawned a new entity over its id in between *)
+Theorem C01_uuid_never_changes :
+  forall n tr1 tr2, UuidStable.uuid_conforming n (tr1 ++ tr2) ->
+    forall p pr1 pr2, Model.grun (Observe.init_global n) tr1 !! p = Some pr1 ->
+                      Model.grun (Observe.init_global n) (tr1 ++ tr2) !! p = Some pr2 ->
+      (forall e, Model.has_sync pr1 e = true -> UuidStable.respawned p e tr2 = false) ->
+      UuidStable.sync_stable pr1 pr2.
+Proof. exact UuidStable.grun_uuid_never_changes. Qed.
+
+(* the premise is needed: an application that marks a network replica gives it a second uuid (the
+   Added<SyncMark> queries have no Without<SyncEntity> filter; confirmed on the real code). C01 quantifies
+   over spawn / despawn operations, so this is outside the property *)
+Theorem C01_marking_a_replica_changes_its_uuid :
+  exists n tr1 tr2 p pr1 pr2 e en en' u u',
+    Model.grun (Observe.init_global n) tr1 !! p = Some pr1 /\
+    Model.grun (Observe.init_global n) (tr1 ++ tr2) !! p = Some pr2 /\
+    Model.p_ents pr1 !! e = Some en /\ Types.en_sync en = Some u /\
+    Model.p_ents pr2 !! e = Some en' /\ Types.en_sync en' = Some u' /\ u <> u'.
+Proof. exact UuidStable.uuid_changes_when_a_replica_is_marked. Qed.
+
 Print Assumptions C01_entities_unique.
 Print Assumptions C01_host_never_receives_duplicate.
 Print Assumptions C01_entities_converge.
@@ -92,3 +127,6 @@ Print Assumptions C01_entities_converge_no_leave.
 Print Assumptions C01_refuted_reconnect_keeps_deleted.
 Print Assumptions C01_refuted_reconnect_lost_spawn.
 Print Assumptions C01_unrestricted_is_false.
+Print Assumptions C01_an_id_never_stands_for_two_uuids.
+Print Assumptions C01_uuid_never_changes.
+Print Assumptions C01_marking_a_replica_changes_its_uuid.
